@@ -6,7 +6,7 @@ PROPS['C04']={
  'assumptions':['PublicKey::verify replaced by the ideal-signature oracle (a signature verifies only under the key that made it, over exactly the bytes it was made over)',
                 'MetadataWrapper::to_bytes stubbed to constant bytes in this obligation (its injectivity is C05, its agreement between signer and verifier is C09)',
                 'std/dependency calls replaced by the listed models (coverage.trusted_base); models validated on every run by native replay of sampled paths',
-                'HashMap keyed by KeyId: key equality modelled structurally (derived PartialEq/Hash)'],
+                'HashMap keyed by KeyId: key equality structural where PartialEq/Hash are derived; a hand-written PartialEq / Ord of a key type is executed from MIR by the map models'],
  'obligations':[
    {'name':'verify_vec','module':'harness.C04','cls':'VerifyThreshold','quick':{'nk':2,'ns':3,'iter_kind':'vec'},'thorough':{'nk':3,'ns':4,'iter_kind':'vec'}},
    {'name':'verify_mapvalues','module':'harness.C04','cls':'VerifyThreshold','quick':{'nk':2,'ns':2,'iter_kind':'values'},'thorough':{'nk':3,'ns':3,'iter_kind':'values'}},
